@@ -61,6 +61,10 @@ type QueryObs struct {
 	TCPPackets  int      `json:"tcp_packets"`
 	SinkPackets int      `json:"sink_packets"`
 	AfterReply  int      `json:"packets_after_reply"`
+	// AbandonedTC: UDP queries that were answered TC=1 and never repeated
+	// over TCP (same server, id and question) — the exchange was cut short
+	// by the resolver's server race
+	AbandonedTC int      `json:"truncated_exchanges_abandoned,omitempty"`
 	Foreign     int      `json:"foreign_packets_ignored,omitempty"`
 	ForeignSeen []string `json:"foreign_packets,omitempty"`
 	Trees       uint64   `json:"ledgers_published"`
@@ -237,6 +241,39 @@ func (s *stackRun) settle() bool {
 	return true
 }
 
+// abandonedTruncations counts the UDP queries of a window that got a TC=1
+// reply (scripted "tc" action or an honest size truncation) and have no TCP
+// query with the same server, id and question after them.
+func abandonedTruncations(ps []authsim.Packet) int {
+	type key struct {
+		server, name string
+		id, qtype    uint16
+	}
+	tcp := map[key]bool{}
+	for i := range ps {
+		if p := &ps[i]; p.Transport == "tcp" {
+			tcp[key{p.Server, p.QNameL, p.ID, p.QType}] = true
+		}
+	}
+	n := 0
+	for i := range ps {
+		p := &ps[i]
+		if p.Transport != "udp" || isMarker(p) {
+			continue
+		}
+		truncated := strings.Contains(p.Outcome, "size-truncated")
+		for _, part := range strings.Split(p.Action, "+") {
+			if part == "tc" {
+				truncated = true
+			}
+		}
+		if truncated && !tcp[key{p.Server, p.QNameL, p.ID, p.QType}] {
+			n++
+		}
+	}
+	return n
+}
+
 func isMarker(p *authsim.Packet) bool { return strings.HasSuffix(p.QNameL, markerSuffix) }
 
 func exhaustedDelta(before, after map[string]int64) []string {
@@ -339,6 +376,8 @@ func (s *stackRun) ask(client string, q QuerySpec) *QueryObs {
 			obs.Upstream = append(obs.Upstream, p.String())
 		}
 	}
+
+	obs.AbandonedTC = abandonedTruncations(u.Log.Since(from))
 
 	replies := t.Replies()
 	obs.Replies = len(replies)
